@@ -58,10 +58,21 @@ MIP_Problem::MIP_Problem(const MIP_Problem& y)
     opt_mode(y.opt_mode),
     last_generator(y.last_generator),
     i_variables(y.i_variables) {
-  input_cs.reserve(y.input_cs.size());
-  for (Constraint_Sequence::const_iterator i = y.input_cs.begin(),
-         i_end = y.input_cs.end(); i != i_end; ++i) {
-    add_constraint_helper(*(*i));
+  try {
+    input_cs.reserve(y.input_cs.size());
+    for (Constraint_Sequence::const_iterator i = y.input_cs.begin(),
+           i_end = y.input_cs.end(); i != i_end; ++i) {
+      add_constraint_helper(*(*i));
+    }
+  }
+  catch (...) {
+    // This is a constructor: the destructor will not be invoked.
+    // Delete the constraints allocated so far, to avoid memory leaks.
+    for (Constraint_Sequence::const_iterator i = input_cs.begin(),
+           i_end = input_cs.end(); i != i_end; ++i) {
+      delete *i;
+    }
+    throw;
   }
   PPL_ASSERT(OK());
 }
